@@ -304,10 +304,86 @@ def check_relocation(ctx, unit, classes, rule="O5.relocate-range"):
                 ms, ds = moves[0].start_canon(), dtors[0].start_canon()
                 want = "this.%s" % sizef
                 ok = mb == db == want and ms == ds == "0" and moves[0].op == dtors[0].op == "<"
-                ctx.inst(rule, "%s::%s" % (cls, f.name), ok, f.loc,
-                         "relocates [%s, %s), destroys [%s, %s), live range is [0, %s) (instantiation %s)" % (ms, mb, ds, db, want, rec["qn"]), f)
+                cover = _grow_covers_request(f, move_nodes[0], old, sc)
+                ctx.inst(rule, "%s::%s" % (cls, f.name), ok and cover is None, f.loc,
+                         ("relocates [%s, %s), destroys [%s, %s), live range is [0, %s) (instantiation %s)" % (ms, mb, ds, db, want, rec["qn"]))
+                         + ("; " + cover if cover else ""), f)
         if n_sites == 0:
             raise AnalysisBroken("anchor vanished: no member of %s relocates elements into a new buffer" % cls)
+
+
+def _grow_covers_request(f, move_node, old, sc):
+    """The fresh block that the elements are relocated into has room for the capacity that was asked for: the growth happens
+    under a decision `capacity field < request` (or its negation on the other arm), and the element count of the new
+    allocation minus that request is non-negative as a polynomial over non-negative quantities.  None = shown;
+    otherwise the reason it could not be shown."""
+    from .poly import Poly, to_poly
+    inits = RA.local_inits(f)
+    bind = f.bind_map()
+
+    def leaf(x, depth=0):
+        x = x.strip()
+        if x.kind == "DeclRefExpr" and x.get("local") and depth < 8:
+            d = x.d["d"]
+            if d in bind:
+                return to_poly(f.node(bind[d]), lambda y: leaf(y, depth + 1))
+            if d in inits and not RA._reassigned(f, d):
+                r = to_poly(inits[d], lambda y: leaf(y, depth + 1))
+                if r is not None:
+                    return r
+            return Poly.sym("v#%d" % d)
+        if x.kind == "UnaryExprOrTypeTraitExpr":
+            return Poly.sym("sizeof")
+        p_ = path(x)
+        if p_ and len(p_) == 2:
+            return Poly.sym(".".join(p_))
+        return None
+    # the fresh allocation the relocation writes into
+    dst = f.node(move_node.get("pargs")[0])
+    alloc = None
+    x = std_unwrap(dst)
+    hops = 0
+    while x is not None and hops < 12:
+        hops += 1
+        if x.kind in ("UnaryOperator", "ArraySubscriptExpr", "CStyleCastExpr", "CXXReinterpretCastExpr", "CXXStaticCastExpr", "ParenExpr", "ImplicitCastExpr") and x.children:
+            x = std_unwrap(x.children[0]); continue
+        if x.kind == "DeclRefExpr" and x.get("local"):
+            d = x.d["d"]
+            if d in bind:
+                x = std_unwrap(f.node(bind[d])); continue
+            if d in inits:
+                x = std_unwrap(inits[d]); continue
+        if x.is_call() and x.callee and x.callee["n"] == "allocate" and x.args:
+            alloc = x
+        break
+    if alloc is None:
+        return None        # (not an allocate() call we can see: nothing to compare)
+    sz = to_poly(alloc.args[0], leaf)
+    if sz is None:
+        return "the size of the new allocation (%s) is not a product of the element size and a capacity expression" % canon(alloc.args[0])[:60]
+    # element count: divide by the sizeof symbol
+    if not sz.t or any("sizeof" not in k for k in sz.t):
+        return None
+    cnt = Poly({tuple(sorted(list(k)[:list(k).index("sizeof")] + list(k)[list(k).index("sizeof") + 1:])): v for k, v in sz.t.items()})
+    # the request: the other side of a dominating comparison with a field of *this that the function also stores to
+    written = {write_of(n)[0][1] for n in f.events() if write_of(n) and write_of(n)[0] and write_of(n)[0][0] == "this" and len(write_of(n)[0]) == 2}
+    reqs = []
+    for cond, truth in flow.facts_at(f, alloc.id):
+        rel = flow.fact_relation(cond, truth)
+        if rel is None or rel[1] not in ("<", "<="):
+            continue
+        a, op, b = rel
+        pa = path(a.strip())
+        if pa and len(pa) == 2 and pa[0] == "this" and pa[1] in written and not sc.ptr_fields & {pa[1]}:
+            pb = to_poly(b, leaf)
+            if pb is not None:
+                reqs.append((pb, canon(b)))
+    if not reqs:
+        return None        # growth is not guarded by `capacity field < request` here: a different protocol
+    for pb, txt in reqs:
+        if not (cnt - pb).nonneg():
+            return "the new allocation holds %r elements, which is not shown to cover the requested %s (the request that triggered the growth)" % (cnt, txt.split("#")[0])
+    return None
 
 
 # ---- R: forwarded pack consumed once -------------------------------------------------
@@ -1154,6 +1230,56 @@ class StorageExchange:
         return out
 
 
+def check_allocator_stable(ctx, unit, classes, rule="O.allocator-stable"):
+    """A block goes back to the allocator it came from.  An owner keeps its allocator in a field; a member that assigns
+    that field and afterwards, on the same path, releases something through it (directly, or by calling a member of
+    *this that releases) frees the block it held so far through the NEW allocator.  (Exchanging allocator and pointer
+    together -- swap -- is fine: nothing is released afterwards in the same member.)"""
+    ctx.rule(rule, "no member assigns the owner's allocator field and afterwards, on the same path, releases memory through it "
+             "(the block held so far would be freed through a different allocator than the one that allocated it)", len(classes))
+    for cls in classes:
+        n_inst = 0
+        for rec in recs_of(unit, cls):
+            fns = cls_fns(unit, rec["qn"])
+            alf = [fl["n"] for fl in rec["fields"] if (fl.get("rt") or "") == "wit::Alloc" or fl["t"].strip() in ("wit::Alloc", "Allocator")]
+            if not alf:
+                raise AnalysisBroken("anchor vanished: allocator field of %s" % rec["qn"])
+            frees = {f.did for f in fns if free_calls(f) and f.kind != "dtor"}
+            grew = True
+            while grew:
+                grew = False
+                for f in fns:
+                    if f.did in frees or f.kind == "dtor":
+                        continue
+                    if any(n.is_call() and n.callee and n.callee.get("did") in frees and n.kind == "CXXMemberCallExpr" and path(n.child("obj")) == ("this",)
+                           for n in f.events()):
+                        frees.add(f.did)
+                        grew = True
+            for f in fns:
+                if f.kind in ("ctor", "dtor"):
+                    continue
+                ws = []
+                for n in f.events():
+                    w = write_of(n)
+                    if w and w[0] and w[0][0] == "this" and len(w[0]) == 2 and w[0][1] in alf and n.kind != "CtorInit":
+                        ws.append(n)
+                    # copy/move assignment of a class-type allocator is an operator= call on the field
+                    if n.kind == "CXXOperatorCallExpr" and n.callee and n.callee.get("op") == "=" and n.args and path(n.args[0]) and \
+                            path(n.args[0])[0] == "this" and len(path(n.args[0])) == 2 and path(n.args[0])[1] in alf:
+                        ws.append(n)
+                if not ws:
+                    continue
+                n_inst += 1
+                rel = [n for n in f.events() if n.is_call() and n.callee and n.callee.get("did") in frees and n.kind == "CXXMemberCallExpr"
+                       and path(n.child("obj")) == ("this",)] + list(free_calls(f))
+                bad = [(w, r) for w in ws for r in rel if f.reaches(w.id, r.id)]
+                ctx.inst(rule, f.sig, not bad, f.loc,
+                         ("the allocator field is assigned at %s and %s at %s then releases through it: the block held before the assignment "
+                          "is returned to a different allocator" % (bad[0][0].loc, (bad[0][1].callee["n"] + "()") if bad[0][1].callee else "a free", bad[0][1].loc))
+                         if bad else "allocator assigned, nothing released through it afterwards", f)
+        ctx.inst(rule, "%s: <members that assign the allocator>" % cls, True, "", "%d member(s) assign the allocator field" % n_inst, None)
+
+
 # ---- O7: no use after destroy / free ------------------------------------------------------------------
 
 def check_no_use_after_release(ctx, unit, fns, rule="O7.no-use-after-release"):
@@ -1511,6 +1637,11 @@ def check_grow_then_read_arg(ctx, unit, classes, rule="O.arg-survives-growth"):
                     continue
                 refp = {p["d"]: p for p in f.params() if p["t"].rstrip().endswith("&") and (
                     (p.get("rt") or "") == ELEM or p.get("collapsing"))}
+                # an assignment-like member that takes another container of its own class by reference: the source may be
+                # *this (v = v, rows[i] = rows[perm[i]]); it must be read before anything of *this is destroyed, unless
+                # the member has established that the two are different objects
+                same = {p["d"]: p for p in f.params() if p["t"].rstrip().endswith("&") and (p.get("rt") or "") == cls and f.name != "swap"}
+                refp.update(same)
                 if not refp:
                     continue
                 rel = [n for n in f.events() if n.is_call() and n.callee and n.callee.get("did") in may and n.kind == "CXXMemberCallExpr"
@@ -1519,10 +1650,23 @@ def check_grow_then_read_arg(ctx, unit, classes, rule="O.arg-survives-growth"):
                 if not rel:
                     continue
                 bad = []
+
+                def distinct_known(n):
+                    for cond, truth in flow.facts_at(f, n.id):
+                        c, t = cond.strip(), truth
+                        while c.kind == "UnaryOperator" and c.op == "!":
+                            c, t = c.children[0].strip(), not t
+                        if c.kind == "BinaryOperator" and c.op in ("==", "!=") and ((c.op == "!=") == t):
+                            sides = [x.strip() for x in c.children]
+                            if any(x.kind == "CXXThisExpr" for x in sides) and any(x.kind == "UnaryOperator" and x.op == "&" for x in sides):
+                                return True
+                    return False
                 for n in f.events():
                     if n.kind == "DeclRefExpr" and n.d.get("d") in refp:
                         for r in rel:
                             if f.reaches(r.id, n.id):
+                                if n.d["d"] in same and distinct_known(n):
+                                    continue
                                 bad.append((n, r))
                 ctx.inst(rule, f.sig, not bad, f.loc,
                          ("argument `%s` is read at %s after %s at %s may have destroyed the elements and released the old buffer" % (
